@@ -163,4 +163,29 @@ def noindex_cycle(rng):
     return 'noindex_cycle', prog, ['p'], inputs
 
 
-ALL = [tc, sp_count, funnel_rel, funnel_lat, neg_agg_chain, lat_contention, noindex_cycle]
+def lat_many_keys(rng):
+    """thousands of lattice keys, each derived a few times within one iteration by rules running in parallel: first insertions
+    of keys land in shards that other workers are writing to at that moment (lookups in the unfrozen `new` index race with
+    inserts of *other* keys, table growth included)"""
+    prog = Program([Rel('src', [T.I32, T.I32]), Rel('src2', [T.I32, T.I32]), Rel('best', [T.I32, MAXI], is_lat=True), Rel('lo', [T.I32, DUALI], is_lat=True),
+                    Rel('cnt', [T.I32]), Rel('cntlo', [T.I32])],
+                   [Rule([Head('best', [V('k'), V('v')]), Head('lo', [V('k'), Dual(V('v'))])], [Clause('src', [AVar('k'), AVar('v')])]),
+                    Rule([Head('best', [V('k'), V('v')])], [Clause('src2', [AVar('k'), AVar('v')])]),
+                    Rule([Head('cnt', [V('n')])], [Agg('n', 'count', [], 'best', [AWild(), AWild()], None, '(n as i32)', int)]),
+                    Rule([Head('cntlo', [V('n')])], [Agg('n', 'count', [], 'lo', [AWild(), AWild()], None, '(n as i32)', int)])])
+
+    def inputs(rng):
+        nk = rng.choice([200, 2000, 6000])
+        per = rng.choice([2, 3, 6])
+        rows = []
+        for k in range(nk):
+            for v in rng.sample(range(CAP), per):
+                rows.append(('src', (k, v)))
+            if rng.random() < 0.3:
+                rows.append(('src2', (k, rng.randrange(CAP))))
+        rng.shuffle(rows)
+        return rows
+    return 'lat_many_keys', prog, ['src', 'src2'], inputs
+
+
+ALL = [tc, sp_count, funnel_rel, funnel_lat, neg_agg_chain, lat_contention, noindex_cycle, lat_many_keys]
